@@ -17,6 +17,7 @@ import KawinV.Props.C03
 import KawinV.Props.C05
 import KawinV.Props.C07
 import KawinV.Props.C08
+import KawinV.Props.C12
 import Mathlib.Algebra.Order.Field.Rat
 import Mathlib.Tactic.NormNum
 
@@ -2654,6 +2655,192 @@ theorem reset_like_fresh (c : Cfg α) (s : St α) (a : EvalAns α) (eq : List (O
   exact hcfg
 
 
+/-! ### the effective diffusion distance is part of the model: its range, and the sign of the binary growth field
+
+`EffectiveDiffusionFunctions` (a 252-point table interpolated by `np.interp`) used to be a backend answer of the composed step;
+it is now computed by the model (`effOf`) from the implementation's own tables, so the hypothesis `0 < eff` of C12's growth-sign
+theorems is DISCHARGED here instead of being assumed about an answer. -/
+
+open KawinV.Grid in
+theorem interpAux_le (M : α) : ∀ (xp fp : List α) (x : α), 0 ≤ M → (∀ y ∈ fp, y ≤ M) →
+    (∀ x0, xp.head? = some x0 → x0 ≤ x) → interpAux xp fp x ≤ M := by
+  intro xp
+  induction xp with
+  | nil =>
+    intro fp x hM hf _
+    cases fp with
+    | nil => simpa [interpAux] using hM
+    | cons f0 fs => simp only [interpAux]; exact hf f0 (by simp)
+  | cons x0 xs ih =>
+    intro fp x hM hf hx
+    cases fp with
+    | nil => simpa [interpAux] using hM
+    | cons f0 fs =>
+      cases xs with
+      | nil => simp only [interpAux]; exact hf f0 (by simp)
+      | cons x1 xs' =>
+        cases fs with
+        | nil => simp only [interpAux]; exact hf f0 (by simp)
+        | cons f1 fs' =>
+          simp only [interpAux]
+          have h0 : f0 ≤ M := hf f0 (by simp)
+          have h1 : f1 ≤ M := hf f1 (by simp)
+          have hx0 : x0 ≤ x := hx x0 rfl
+          split
+          · next hlt =>
+            have hd : 0 < x1 - x0 := by linarith
+            have e : (f1 - f0) / (x1 - x0) * (x - x0) + f0 = (f1 * (x - x0) + f0 * (x1 - x)) / (x1 - x0) := by
+              field_simp; ring
+            rw [e, div_le_iff₀ hd]
+            have a1 : 0 ≤ x - x0 := by linarith
+            have a2 : 0 ≤ x1 - x := by linarith
+            nlinarith [mul_le_mul_of_nonneg_right h1 a1, mul_le_mul_of_nonneg_right h0 a2]
+          · next hge =>
+            apply ih (f1 :: fs') x hM (fun y hy => hf y (by simp [List.mem_cons] at hy ⊢; tauto))
+            intro y hy
+            simp at hy; subst hy
+            exact not_lt.mp hge
+
+open KawinV.Grid in
+/-- interpolating ordinates bounded by `M` gives a value bounded by `M`, whatever the abscissae -/
+theorem interp_le (M : α) (xp fp : List α) (x : α) (hM : 0 ≤ M) (hf : ∀ y ∈ fp, y ≤ M) : interp xp fp x ≤ M := by
+  unfold interp
+  split
+  · next x0 _ f0 _ =>
+    split
+    · exact hf f0 (by simp)
+    · next h =>
+      apply interpAux_le M _ _ _ hM hf
+      intro y hy; simp at hy; subst hy; exact not_lt.mp h
+  · exact hM
+
+/-- ordinates positive except possibly the last one, which is not negative -/
+def PosButLast : List α → Prop
+  | [] => True
+  | [f] => 0 ≤ f
+  | f :: g :: r => 0 < f ∧ PosButLast (g :: r)
+
+open KawinV.Grid in
+theorem interpAux_pos : ∀ (xp fp : List α) (x : α), xp ≠ [] → xp.length = fp.length → PosButLast fp →
+    (∀ x0, xp.head? = some x0 → x0 ≤ x) → (∀ xl, xp.getLast? = some xl → x < xl) → 0 < interpAux xp fp x := by
+  intro xp
+  induction xp with
+  | nil => intro fp x hne; exact absurd rfl hne
+  | cons x0 xs ih =>
+    intro fp x _ hlen hp hx hl
+    cases fp with
+    | nil => simp at hlen
+    | cons f0 fs =>
+      cases xs with
+      | nil =>
+        -- a single abscissa: x0 ≤ x < x0 is impossible
+        have := hx x0 rfl
+        have := hl x0 rfl
+        linarith
+      | cons x1 xs' =>
+        cases fs with
+        | nil => simp at hlen
+        | cons f1 fs' =>
+          simp only [interpAux]
+          obtain ⟨h0, hrest⟩ := hp
+          have hx0 : x0 ≤ x := hx x0 rfl
+          have h1 : 0 ≤ f1 := by
+            cases fs' with
+            | nil => exact hrest
+            | cons _ _ => exact hrest.1.le
+          split
+          · next hlt =>
+            have hd : 0 < x1 - x0 := by linarith
+            have e : (f1 - f0) / (x1 - x0) * (x - x0) + f0 = (f1 * (x - x0) + f0 * (x1 - x)) / (x1 - x0) := by
+              field_simp; ring
+            rw [e]
+            apply div_pos _ hd
+            have a1 : 0 ≤ x - x0 := by linarith
+            have a2 : 0 < x1 - x := by linarith
+            have : 0 < f0 * (x1 - x) := mul_pos h0 a2
+            have : 0 ≤ f1 * (x - x0) := mul_nonneg h1 a1
+            linarith
+          · next hge =>
+            apply ih (f1 :: fs') x (by simp) (by simpa using hlen) hrest
+            · intro y hy; simp at hy; subst hy; exact not_lt.mp hge
+            · intro xl hxl; apply hl xl; simpa [List.getLast?_cons_cons] using hxl
+
+/-- the tables of `setupInterpolation`: as many abscissae as ordinates (at least two), ordinates positive except the last
+(which is 0 at supersaturation 1) and at most 1 -/
+def EffTableOK (c : Cfg α) : Prop :=
+  c.effOhm.length = c.effVal.length ∧ PosButLast c.effVal ∧ (∀ v ∈ c.effVal, v ≤ 1) ∧ 2 ≤ c.effVal.length
+
+open KawinV.Grid in
+/-- **range of the effective diffusion distance factor**: at most 1 always … -/
+theorem effOf_le_one (c : Cfg α) (Q : α) (h : EffTableOK c) : effOf c Q ≤ 1 := by
+  unfold effOf
+  split
+  · exact interp_le 1 _ _ _ zero_le_one h.2.2.1
+  · exact le_refl 1
+
+open KawinV.Grid in
+/-- … and strictly positive below the last tabulated supersaturation (the value 0 is reached only at supersaturation 1, where
+the growth law has a pole) -/
+theorem effOf_pos (c : Cfg α) (Q : α) (h : EffTableOK c) (hQ : ∀ xl, c.effOhm.getLast? = some xl → Q < xl) : 0 < effOf c Q := by
+  obtain ⟨hlen, hp, _, h2⟩ := h
+  unfold effOf
+  split
+  · unfold interp
+    split
+    · next x0 xr f0 fr hxp hfp =>
+      rw [hfp] at hp h2
+      split
+      · cases fr with
+        | nil => simp at h2
+        | cons f1 fr' => exact hp.1
+      · next h' =>
+        rw [hxp, hfp] at hlen
+        rw [hxp, hfp]
+        apply interpAux_pos _ _ _ (by simp) hlen hp
+        · intro y hy; simp at hy; subst hy; exact not_lt.mp h'
+        · intro xl hxl; apply hQ xl; rw [hxp]; exact hxl
+    · next hno =>
+      exfalso
+      cases hx : c.effOhm with
+      | nil => rw [hx] at hlen; simp at hlen; rw [← hlen] at h2; simp at h2
+      | cons x0 xr =>
+        cases hf : c.effVal with
+        | nil => rw [hf] at h2; simp at h2
+        | cons f0 fr => exact hno x0 xr f0 fr hx hf
+  · exact zero_lt_one
+
+
+/-- **sign of the binary growth field in the composed model (C12's growth clause without an assumption on the backend)**: for a
+class boundary of the stable branch with positive kinetic factor, diffusivity and radius, a precipitate richer in solute than the
+matrix (`xa < Va·xb/Vb`, `x < Va·xb/Vb`), the growth rate the step stores is positive exactly when the matrix is supersaturated
+with respect to the interfacial composition of that class, and negative exactly when it is undersaturated — the effective
+diffusion distance is the model's own interpolation and is proved positive there -/
+theorem growthBinaryPh_sign (c : Cfg α) (x D : α) (pc : PhaseCfg α) (ps : PhaseSt α) (an : PhaseAns α) (i : Nat)
+    (hi : i < ps.grid.bounds.length) (hstable : ps.rdfIdx + 1 < (ps.xaT.headD []).length)
+    (hkin : 0 < an.kin.getD i 0) (hD : 0 < D) (hR : 0 < ps.grid.bounds.getD i 0)
+    (hden : 0 < c.sites.vmAlpha * (ps.xbT.headD []).getD i 0 / pc.vmBeta - (ps.xaT.headD []).getD i 0)
+    (hx : x < c.sites.vmAlpha * (ps.xbT.headD []).getD i 0 / pc.vmBeta)
+    (htab : EffTableOK c) (hlast : c.effOhm.getLast? = some 1) :
+    (0 < (growthBinaryPh c x D pc ps an).getD i 0 ↔ (ps.xaT.headD []).getD i 0 < x) ∧
+    ((growthBinaryPh c x D pc ps an).getD i 0 < 0 ↔ x < (ps.xaT.headD []).getD i 0) := by
+  have hQ : Gen.C12.superSat x ((ps.xaT.headD []).getD i 0) ((ps.xbT.headD []).getD i 0) c.sites.vmAlpha pc.vmBeta < 1 := by
+    unfold Gen.C12.superSat
+    rw [div_lt_one hden]
+    linarith
+  have heff := effOf_pos c _ htab (fun xl hxl => by rw [hlast] at hxl; cases hxl; exact hQ)
+  have hval : (growthBinaryPh c x D pc ps an).getD i 0 =
+      Gen.C12.growthBinary (an.kin.getD i 0) D
+        (effOf c (Gen.C12.superSat x ((ps.xaT.headD []).getD i 0) ((ps.xbT.headD []).getD i 0) c.sites.vmAlpha pc.vmBeta))
+        x ((ps.xaT.headD []).getD i 0) ((ps.xbT.headD []).getD i 0) c.sites.vmAlpha pc.vmBeta (ps.grid.bounds.getD i 0) := by
+    unfold growthBinaryPh
+    simp only [hstable, if_true]
+    rw [List.getD_eq_getElem?_getD, List.getElem?_map, List.getElem?_range hi]
+    rfl
+  rw [hval]
+  exact ⟨C12.growthBinary_pos_iff _ _ _ _ _ _ _ _ _ hkin hD heff hR hden,
+         C12.growthBinary_neg_iff _ _ _ _ _ _ _ _ _ hkin hD heff hR hden⟩
+
+
 /-! ### non-vacuity
 
 `GridGood` is satisfiable (the grid a `PopulationBalanceModel` is constructed with).  The hypothesis `… = some o` of the step
@@ -2681,7 +2868,8 @@ def cfg0 : Cfg ℚ :=
             binRatio := 2 / 5 },
     sites := { bulkN0 := 1000, dislN0 := 1000, gbN0 := 1000, edgeN0 := 1000, cornerN0 := 1000, NA := 6, vmAlpha := 1 },
     phases := [], nElem := 1, binary := true, betaType := 1, isothermal := true, kB := 1, a0 := 1, theta := 2,
-    minDens := 1 / 10000000000, minComp := 0, minRadius := 1 / 2, maxDissolution := 1 / 1000, maxTempChange := 1, x0 := [1 / 10] }
+    minDens := 1 / 10000000000, minComp := 0, minRadius := 1 / 2, maxDissolution := 1 / 1000, maxTempChange := 1, x0 := [1 / 10],
+    effEnabled := true, effOhm := [0, 1 / 2, 1], effVal := [1, 1 / 3, 0] }
 
 def st0 : St ℚ :=
   { ph := [], lookT := 700, lookEqA := [], lookEqB := [], hist := [{ time := 0, temp := 700, comp := [1 / 10], ph := [] }] }
@@ -2756,6 +2944,15 @@ theorem unrepaired_reset_changes_configuration : ¬ GridCfgEq gDefault g0 := by
   intro h; exact absurd h.2.2.1 (by decide)
 
 theorem unrepaired_reset_changes_grid : (Grid.reset gDefault true).bins ≠ (Grid.reset g0 true).bins := by decide
+
+/-- the table hypothesis of `effOf_pos` / `growthBinaryPh_sign` is met by a table of the shape `setupInterpolation` builds -/
+example : EffTableOK cfg0 ∧ cfg0.effOhm.getLast? = some 1 := by
+  refine ⟨⟨rfl, ?_, ?_, by decide⟩, rfl⟩
+  · show (0 : ℚ) < 1 ∧ (0 : ℚ) < 1 / 3 ∧ (0 : ℚ) ≤ 0
+    norm_num
+  · intro v hv
+    simp only [cfg0, List.mem_cons, List.not_mem_nil, or_false] at hv
+    rcases hv with rfl | rfl | rfl <;> norm_num
 
 end Example
 
